@@ -3729,6 +3729,23 @@ class NetCDFRead(IORead):
                 field_ncvar, domain_dimensions, variables=True
             )
 
+            # Leave out, and report, any dimension that is not in the
+            # dataset
+            for ncdim in ncdimensions[:]:
+                if (
+                    ncdim not in g["internal_dimension_sizes"]
+                    and ncdim not in g["new_dimension_sizes"]
+                ):
+                    self._add_message(
+                        field_ncvar,
+                        ncdim,
+                        message=("Domain dimension", "is not in file"),
+                        attribute={
+                            field_ncvar + ":dimensions": domain_dimensions
+                        },
+                    )
+                    ncdimensions.remove(ncdim)
+
         field_ncdimensions = self._ncdimensions(
             field_ncvar, ncdimensions=ncdimensions
         )
